@@ -246,6 +246,13 @@ func ZZ_C04_labelAfterPromotion() {
 	datadoghqv1alpha1.DefaultExtendedDaemonSetSpec(&ds.Spec, datadoghqv1alpha1.ExtendedDaemonSetSpecStrategyCanaryValidationModeAuto)
 	ds.Status.ActiveReplicaSet = rsNew.Name // just promoted
 	ds.Status.Canary = nil
+	// the template may already have changed again: a NEW canary (a third replica set) was started before the
+	// promoted replica set synced as active for the first time, and it picked the same node (the selection is
+	// deterministic).  The former canary pod there is now a pod of the active replica set: no canary label.
+	if nondet.Bool("nextCanaryAlreadyStartedOnTheSameNode") {
+		ds.Status.Canary = &datadoghqv1alpha1.ExtendedDaemonSetStatusCanary{ReplicaSet: "foo-next", Nodes: []string{zzNodeName(0)}}
+		ds.Status.State = datadoghqv1alpha1.ExtendedDaemonSetStatusStateCanary
+	}
 	ann := nondet.String("annotation", "none", "rolling-update-paused", "rollout-frozen", "both")
 	if ann == "rolling-update-paused" || ann == "both" {
 		ds.Annotations[datadoghqv1alpha1.ExtendedDaemonSetRollingUpdatePausedAnnotationKey] = "true"
